@@ -985,14 +985,26 @@ class H2Connection:
         if (stream_id % 2) == 0:
             raise ProtocolError("Cannot recursively push streams.")
 
+        highest_stream_ids = (
+            self.highest_outbound_stream_id, self.highest_inbound_stream_id
+        )
         new_stream = self._begin_new_stream(
             promised_stream_id, AllowedStreamIDs.EVEN
         )
         self.streams[promised_stream_id] = new_stream
 
-        frames = stream.push_stream_in_band(
-            promised_stream_id, request_headers, self.encoder
-        )
+        try:
+            frames = stream.push_stream_in_band(
+                promised_stream_id, request_headers, self.encoder
+            )
+        except Exception:
+            # Nothing was promised: forget the stream reserved for the push,
+            # so that its ID has not been used.
+            del self.streams[promised_stream_id]
+            (self.highest_outbound_stream_id,
+             self.highest_inbound_stream_id) = highest_stream_ids
+            raise
+
         new_frames = new_stream.locally_pushed()
         self._prepare_for_sending(frames + new_frames)
 
